@@ -145,6 +145,7 @@ def run(tier='quick'):
         for c in calls:
             getattr(chk, c[0])(*c[1], **c[2])
     chk.extra['representative_versions'] = ['%s %s' % (g, order[v]) for g, v in reps]
+    rowrules.fetch_widths(prog, chk, R2, maps + tmaps)
     R7 = chk.rule('R7', 'no member update is made on a local copy that is then dropped (conversion layer between '
                         'snapshot fields and rows / blobs)', floor=20)
     rowrules.lost_updates(prog, chk, R7)
